@@ -185,7 +185,14 @@ def r2_wiring(run, F):
     last = [x for x in hirq.matches(mo["hir"])][-1]
     rows = []
     for a in last["arms"]:
-        g = hirq.summarize_bool(a["guard"]) if "guard" in a else None
+        g = None
+        if "guard" in a:
+            # `(x, y) if x == y`: an equality between two bindings of this arm's own pattern, by binding not by name
+            gd = hirq.unwrap_trivial(a["guard"])
+            own = set(lid for _, lid, _ in hirq.pat_bindings(a["pat"]))
+            sides = [hirq.unwrap_trivial(gd.get(x, {})) for x in ("lhs", "rhs")] if gd.get("k") == "Binary" else []
+            g = "(rvt == vt)" if gd.get("k") == "Binary" and gd.get("op") == "Eq" and len(sides) == 2 and \
+                all(x.get("k") == "Path" and x.get("lid") in own for x in sides) and sides[0].get("lid") != sides[1].get("lid") else hirq.summarize_bool(gd)
         cons = [hirq.short(p) for p, _ in hirq.constructs(a["body"])]
         rows.append((g, "Ok" if any(c.endswith("::Ok") or c == "v1::Ok" for c in cons) else ("Mismatch" if "Error::MismatchedOperandTypes" in cons else "?")))
     run.ob("R2-OPERAND-EQUALITY", "match_type_of_operands", rows == [("(rvt == vt)", "Ok"), (None, "Mismatch")], F.where(mo, last),
@@ -295,10 +302,33 @@ def r4_calls(run, F):
         if n.get("k") == "If":
             c = hirq.unwrap_trivial(n["cond"])
             if c.get("k") == "Binary" and c.get("op") in ("Lt", "Gt", "Le", "Ge", "Ne", "Eq"):
-                lo = [hirq.local_name_of(hirq.unwrap_trivial(x["recv"])) for x in walk(c) if x.get("k") == "MethodCall" and x.get("name") == "len"]
+                # by role: `arguments` is the parameter of this function that holds the call's arguments (a Vec/slice of
+                # Expression), `parameters` is the `parameters` field of the declared function
+                def role(x):
+                    x = hirq.unwrap_trivial(x)
+                    if x.get("k") == "MethodCall" and x.get("name") == "len":
+                        r = hirq.unwrap_trivial(x["recv"])
+                        while r.get("k") in ("AddrOf",) or (r.get("k") == "Unary" and r.get("op") == "Deref"):
+                            r = hirq.unwrap_trivial(r["e"])
+                        if r.get("k") == "Field" and r.get("name") == "parameters":
+                            return "parameters.len()"
+                        if r.get("k") == "Path" and r.get("lid") in arg_params:
+                            return "arguments.len()"
+                        if r.get("k") == "Path" and r.get("rk") == "Local":
+                            from rules import origins as _or
+                            oo = _or.origins(b["hir"], r, b.get("params", ()))
+                            if any((k[0] == "field" and k[1] == "parameters") or (k[0] == "patfield" and k[2] == "parameters") for k in oo):
+                                return "parameters.len()"
+                    return "?"
+                arg_params = [q.get("lid") for q in b.get("params", []) if "Expression" in str(F.lib.ty(q.get("t")))]
                 cons = [hirq.short(p) for p, _ in hirq.constructs(n["then"]) if hirq.short(p).startswith("Error::")]
-                if "arguments" in lo or "parameters" in lo:
-                    cmps.append((hirq.summarize_bool(c), cons[:1]))
+                l_, r_ = role(c["lhs"]), role(c["rhs"])
+                if "?" not in (l_, r_):
+                    op_ = {"Lt": "<", "Gt": ">", "Le": "<=", "Ge": ">=", "Ne": "!=", "Eq": "=="}[c["op"]]
+                    if l_ == "parameters.len()":      # normalise to arguments on the left
+                        l_, r_ = r_, l_
+                        op_ = {"<": ">", ">": "<", "<=": ">=", ">=": "<="}.get(op_, op_)
+                    cmps.append(("(%s %s %s)" % (l_, op_, r_), cons[:1]))
     ok = sorted(cmps) == sorted([("(arguments.len() < parameters.len())", ["Error::TooFewArguments"]),
                                  ("(arguments.len() > parameters.len())", ["Error::TooManyArguments"])])
     run.ob("R4-ARITY", "use_function", ok, F.where(b),
@@ -309,9 +339,13 @@ def r4_calls(run, F):
     for m in mm:
         for a in m["arms"]:
             if "guard" in a:
-                g = hirq.summarize_bool(a["guard"])
+                gd = hirq.unwrap_trivial(a["guard"])
+                own = set(lid for _, lid, _ in hirq.pat_bindings(a["pat"]))
+                sides = [hirq.unwrap_trivial(gd.get(x, {})) for x in ("lhs", "rhs")] if gd.get("k") == "Binary" else []
+                differs = gd.get("k") == "Binary" and gd.get("op") == "Ne" and len(sides) == 2 and \
+                    all(x.get("k") == "Path" and x.get("lid") in own for x in sides) and sides[0].get("lid") != sides[1].get("lid")
                 cons = [hirq.short(p) for p, _ in hirq.constructs(a["body"])]
-                if g == "(p != a)" and "Error::ArgumentTypeMismatch" in cons and "Error::ArgumentMissingAddress" in cons:
+                if differs and "Error::ArgumentTypeMismatch" in cons and "Error::ArgumentMissingAddress" in cons:
                     ok = True
     run.ob("R4-ARGUMENT-TYPES", "use_function", ok, F.where(b),
            "every argument type is compared with its parameter type by `!=`; a difference is ArgumentTypeMismatch (or the missing-address hint)")
@@ -329,6 +363,9 @@ def r4_calls(run, F):
 
 def r5_unification(run, F):
     b = F.body("alpha::typer::do_update_symbol")
+    # canonical names: $1 = the symbol on record, $2 = the identifier of the new occurrence, $3 = its type;
+    # OLD = the (unpoisoned) type on record, NEW = the new type
+    uenv = hirq.full_env(b)
     chain = []
     n = None
     for x in walk(b["hir"]):
@@ -336,7 +373,7 @@ def r5_unification(run, F):
             n = x
             break
     while n is not None and n.get("k") == "If":
-        cond = hirq.summarize_bool(n["cond"])
+        cond = hirq.summarize_bool(n["cond"], uenv).replace("{match($1.value_type)}", "OLD").replace("$3", "NEW")
         cons = [hirq.short(p) for p, _ in hirq.constructs(n["then"])]
         chain.append((cond, "Ok" if any(c.endswith("Ok") for c in cons) else "?"))
         e = hirq.unwrap_trivial(n.get("else", {}))
@@ -346,9 +383,9 @@ def r5_unification(run, F):
             cons = [hirq.short(p) for p, _ in hirq.constructs(e)]
             chain.append(("else", "ConflictingTypes" if "Error::ConflictingTypes" in cons else "?"))
             n = None
-    want = [("((ot == vt) || ot.can_be_concretization_of(vt))", "Ok"),
-            ("(symbol.identifier.is_authoritative && vt.can_be_declared_as(ot))", "Ok"),
-            ("(new_identifier.is_authoritative && (vt.can_be_concretization_of(ot) || vt.can_coerce_into(ot)))", "Ok"),
+    want = [("((OLD == NEW) || OLD.can_be_concretization_of(NEW))", "Ok"),
+            ("($1.identifier.is_authoritative && NEW.can_be_declared_as(OLD))", "Ok"),
+            ("($2.is_authoritative && (NEW.can_be_concretization_of(OLD) || NEW.can_coerce_into(OLD)))", "Ok"),
             ("else", "ConflictingTypes")]
     run.ob("R5-UNIFICATION", "do_update_symbol", chain == want, F.where(b),
            "the only accepting exits are equality/concretisation, declared-as, and coercion of an authoritative definition; "
